@@ -510,3 +510,69 @@ def gen_history(rng, n_ops=8, depth=3, paced=True, burst_prob=0.5, outside=True,
             arrived = None
     hist.append(["drain"])
     return hist
+
+
+def gen_history_leaving(rng, n_ops=10):
+    """Directed family for C07: nested directories are built first (drained), then operations concentrate on
+    directories leaving the tree, on what they leave behind (their former parents), on re-used names and on the
+    moved-out directories themselves (unpaced, bursts)."""
+    sh = Shadow()
+    hist = []
+
+    def do(kind, p, q=None):
+        if sh.apply(kind, tuple(p), tuple(q) if q else None):
+            hist.append(["op", kind, list(p)] + ([list(q)] if q else []))
+            return True
+        return False
+    # build a small nested tree
+    tops = rng.sample(NAMES, rng.randint(1, 2))
+    for t in tops:
+        do("mkdir", ("R", t))
+        for sub in rng.sample(NAMES, rng.randint(1, 2)):
+            do("mkdir", ("R", t, sub))
+            if rng.random() < 0.5:
+                do("touch", ("R", t, sub, rng.choice(NAMES)))
+            if rng.random() < 0.3:
+                do("mkdir", ("R", t, sub, rng.choice(NAMES)))
+    hist.append(["drain"])
+    out_names = iter(["x", "y", "z", "u", "v", "w"] * 3)
+    for _ in range(n_ops):
+        r = rng.random()
+        in_dirs = [d for d in sh.dirs("R") if len(d) > 1]
+        out_dirs = [d for d in sh.dirs("O") if len(d) > 1]
+        if r < 0.3 and in_dirs:
+            d = rng.choice(in_dirs)
+            do("rename", d, ("O", next(out_names)))
+        elif r < 0.5 and in_dirs:
+            # remove (bottom-up) a directory of the tree, e.g. the former parent of something that left
+            d = rng.choice(in_dirs)
+            below = sorted([e for e in sh.ent if e[:len(d)] == d], key=len, reverse=True)
+            for e in below:
+                do("rmdir" if sh.ent.get(e) else "unlink", e)
+        elif r < 0.62:
+            par = rng.choice(sh.dirs("R"))
+            do("mkdir", par + (rng.choice(NAMES),))
+        elif r < 0.74 and out_dirs:
+            d = rng.choice(out_dirs)
+            k = rng.random()
+            if k < 0.4:
+                do("touch", d + (rng.choice(NAMES),))
+            elif k < 0.7:
+                below = sorted([e for e in sh.ent if e[:len(d)] == d], key=len, reverse=True)
+                for e in below:
+                    do("rmdir" if sh.ent.get(e) else "unlink", e)
+            else:
+                do("rename", d, rng.choice(sh.dirs("R")) + (rng.choice(NAMES),))
+        elif r < 0.86:
+            cands = [e for e in sh.ent if len(e) > 1]
+            if cands:
+                e = rng.choice(cands)
+                do("rename", e, rng.choice(sh.dirs()) + (rng.choice(NAMES),))
+        else:
+            files = sh.files()
+            if files:
+                do(rng.choice(["unlink", "chmod", "write"]), rng.choice(files))
+        if rng.random() < 0.45:
+            hist.append(["drain"])
+    hist.append(["drain"])
+    return hist
